@@ -2,7 +2,7 @@
 from .engine import rule, RuleOut, key_of
 from .facts import strip_generics, callee_of
 from .lib import *
-from .terms import t_str, subterms, TOP, find_calls
+from .terms import t_str, subterms, TOP, find_calls, children
 from .slots import PAR_TRAIT, IS_SEQ
 
 COLLECT_INTO_CORE = 'par::collect_into::collect_into_core::ParCollectIntoCore'
@@ -329,6 +329,31 @@ def c16(ctx):
                 out.fail(key, 'eager transformation (delegate): %s always calls the eager %s' % (key_of(b), strip_generics(n)), b.where(),
                          {'path': path, 'kind': 'delegate'})
                 break
+    # nothing received at construction time is handed out by mutable reference to library code: that is how a source is
+    # advanced without any Iterator-trait call being visible (Peekable::peek, Receiver::recv through by_ref, ...)
+    n_mut = 0
+    for s in sources:
+        b = F.bodies[s]
+        r = ctx.run(s)
+        seen = set()
+        terms = [a for _, c in r.call_sites() for a in c['args']] + ([r.ret] if r.ret is not None else [])
+        for a in terms:
+            if a is None:
+                continue
+            for x in subterms(a):
+                if x[0] == 'mut' and x not in seen:
+                    seen.add(x)
+                    n_mut += 1
+                    if any(y[0] == 'param' for y in subterms(x[1])) and x[2][0] == 'call':
+                        m = term_method(x[2])
+                        c_ = term_callee(x[2])
+                        if c_ in F.bodies or strip_generics(c_) in {strip_generics(n) for n in F.bodies}:
+                            continue        # crate-local callee: covered by reachability above
+                        key = 'C16/%s/advances/%s' % (key_of(b), m)
+                        out.inst(key, False, t_str(x)[:120])
+                        out.fail(key, 'eager: %s lets %s mutate a value it received (%s) before any terminal is called: a source '
+                                      'can be advanced this way without a visible Iterator call' % (key_of(b), c_, t_str(x[1])[:80]), b.where())
+    out.count('mutations_seen', n_mut)
     # constructors only store
     for c in S.constructors:
         b = F.bodies[c]
@@ -679,7 +704,19 @@ def c13_unwrap(ctx):
                 n_into += 1
                 r = r or ctx.run(b.name)
                 # the result must be consumed by the counts-match unwrap and by nothing else
-                users = [c for _, c in r.call_sites() if any(term_callee(x).endswith('ConcurrentOrderedBag::into_inner') for a in c['args'] for x in subterms(a))]
+                def raw_use(tm):
+                    st = [tm]
+                    while st:
+                        x = st.pop()
+                        if x is None:
+                            continue
+                        if x[0] == 'call' and term_callee(x).endswith('IntoInnerResult::unwrap_only_if_counts_match'):
+                            continue        # already checked: what is inside is consumed correctly
+                        if x[0] == 'call' and term_callee(x).endswith('ConcurrentOrderedBag::into_inner'):
+                            return True
+                        st.extend(children(x))
+                    return False
+                users = [c for _, c in r.call_sites() if any(term_callee(a).endswith('ConcurrentOrderedBag::into_inner') or raw_use(a) for a in c['args'])]
                 bad = [c for c in users if method(c['t']) != 'unwrap_only_if_counts_match']
                 if not users or bad:
                     out.fail('C13-UNWRAP/%s/into_inner' % key_of(F.root_of(b)), '%s: the result of ConcurrentOrderedBag::into_inner is not consumed by unwrap_only_if_counts_match' % key_of(b),
@@ -804,8 +841,17 @@ def c09_seqshape(ctx):
                         probs.append(('pulls from the concurrent iterator with `%s` instead of into_seq_iter' % method(t), t.get('line'), bd))
                 if is_buffered_next(t):
                     probs.append(('chunked pull in a sequential kernel', t.get('line'), bd))
-        if n_seq != 1:
-            probs.append(('%d into_seq_iter() calls (expected exactly one root)' % n_seq, None, b))
+        # exactly one sequential root, found in the terms (so a helper that builds the chain is seen through)
+        r0 = ctx.run(kn)
+        root_terms = set()
+        for tm in [r0.ret] + [a for _, c in r0.call_sites() for a in c['args']]:
+            if tm is None:
+                continue
+            for x in r0.deep_subterms(tm):
+                if x[0] == 'call' and coniter_term_is(x, {'into_seq_iter'}):
+                    root_terms.add(x)
+        if len(root_terms) != 1:
+            probs.append(('%d distinct into_seq_iter() roots (expected exactly one)' % len(root_terms), None, b))
         # (c) no Params / chunk size parameter
         for l in b.arg_locals():
             ty = b.locals[l]['ty']
